@@ -123,6 +123,10 @@ def discharge(e, conds, mk_cex):
                         # float effect under an idealisation).  The instance is a genuine, replayable counterexample.
                         return {"status": "cex", "failing": ["concrete instance of a discharged path fails on the real code: %s" % bad[0][0]],
                                 "cex": cc, "validated_against_impl": False}
+                except PathBudget:
+                    # the concrete instance took longer than 10 s to run (solver models may hold huge lengths): the sample is
+                    # skipped; the path itself was discharged
+                    out["validation_skipped"] = "replay of the sampled instance exceeded 10 s"
                 except Exception:
                     pass
         return out
